@@ -28,7 +28,7 @@ from typing import TYPE_CHECKING
 from igraph import Vertex
 
 from explorerscript.ssb_converting.decompiler.write_handlers.abstract import AbstractWriteHandler
-from explorerscript.ssb_converting.ssb_special_ops import SsbLabelJump
+from explorerscript.ssb_converting.ssb_special_ops import OP_JUMP, SsbLabelJump
 
 if TYPE_CHECKING:
     from explorerscript.ssb_converting.ssb_decompiler import ExplorerScriptSsbDecompiler
@@ -49,7 +49,10 @@ class JumpWriteHandler(AbstractWriteHandler):
         logger.debug("Handling a jump; (%s)...", self.start_vertex["op"])
         op: SsbLabelJump = self.start_vertex["op"]
         # TODO: Writing this source map entry may be confusing, if no jump is written next (by the label handler)...
-        self.decompiler.source_map_add_opcode(op.offset)
+        # A break / continue that build_loops inserted behind an op that is not a jump lands here when it turns out
+        # to be outside of its loop (FallbackToJump); it carries the offset of that op, which is not this statement.
+        if op.maybe_root is not None and op.root.op_code.name == OP_JUMP:
+            self.decompiler.source_map_add_opcode(op.offset)
         # Nothing to do, this is dealt with, when processing the label after this
         # either we print a jump there, or we just proceed.
         exits = self.start_vertex.out_edges()
